@@ -17,6 +17,31 @@ func intCodec() Codec[int] {
 	return Codec[int]{"int", -50, func(id int) int { return id }, func(v int) int { return v }}
 }
 
+// int64 values at both ends of the range: the order of the ids is the order of the values, and
+// differences between members overflow int64
+func int64xCodec() Codec[int64] {
+	const lo, hi = -9223372036854775808, 9223372036854775807
+	return Codec[int64]{"int64x", -50,
+		func(id int) int64 {
+			switch {
+			case id < 0:
+				return lo + int64(50+id)
+			case id > 0:
+				return hi - int64(50-id)
+			}
+			return 0
+		},
+		func(v int64) int {
+			switch {
+			case v < 0:
+				return int(v-lo) - 50
+			case v > 0:
+				return 50 - int(hi-v)
+			}
+			return 0
+		}}
+}
+
 func stringCodec() Codec[string] {
 	return Codec[string]{"string", 0,
 		func(id int) string {
